@@ -27,7 +27,7 @@ SPEC = {
              'well-formed one or >=1 quoted cell with an embedded delimiter/newline; distinct by file digest'),
     'exhaustive': {'quick': False, 'thorough': False},
     'required_counters': ['files_parsed', 'rows_expected', 'rows_malformed', 'metamorphic_delete_checks', 'metamorphic_insert_checks',
-                          'regex_delimiter_files', 'template_mode_files', 'european_decimal_files'],
+                          'regex_delimiter_files', 'template_mode_files', 'european_decimal_files', 'twin_source_sets'],
     'assumptions': ['files are read in text mode with universal newlines, so line breaks embedded in quoted cells are generated as \\n only',
                     'cells whose numeric reading the statement does not settle are not generated: 1e3, 1_000, 1,234.56 under the European '
                     'convention, trailing text after a date, {+amount} together with negate_amount: true, byte-order marks'],
@@ -353,6 +353,48 @@ def judge_regex_case(rec, rnd, tmp):
         rec.interesting(core.digest(case))
 
 
+def judge_twin_sources(rec, rnd, tmp):
+    """Several sources with the SAME format string but their own delimiter / header / negate settings, resolved in one go
+    (as load_config does) and then parsed: each file must be read with its own source's settings."""
+    from tally.config_loader import resolve_source_format
+    from tally.parsers import parse_generic_csv
+    lay = gen_layout(rnd)
+    srcs = []
+    for i in range(rnd.randint(2, 3)):
+        conv = rnd.choice(['.', ','])
+        delim = rnd.choice([None, ';', '|', 'tab'])
+        hdr = rnd.random() < .5
+        lay_i = dict(lay)
+        lay_i.pop('negate_setting', None)
+        if lay['sign'] == '' and rnd.random() < .5:
+            lay_i['negate_setting'] = True
+        rows = gen_rows(rnd, lay_i, conv, rnd.randint(2, 8))
+        src = build_source(lay_i, conv, delim, hdr, rnd)
+        src['has_header'] = hdr
+        src['name'] = 'Src'
+        dl = {None: ',', 'tab': '\t'}.get(delim, delim)
+        path = os.path.join(tmp, 'twin%d.csv' % i)
+        with open(path, 'w', encoding='utf-8', newline='') as f:
+            f.write(render_csv(rows, hdr, len(lay['roles']), dl, '\n'))
+        srcs.append((src, path, [r['exp'] for r in rows if r['exp']]))
+    resolved = [resolve_source_format(s) for s, _, _ in srcs]          # all resolved first, as load_config does
+    rec.case()
+    rec.count('twin_source_sets')
+    for rs, (src, path, exp) in zip(resolved, srcs):
+        try:
+            got = parse_generic_csv(path, rs['_format_spec'], [], source_name='Src', decimal_separator=rs.get('decimal_separator', '.'))
+        except Exception as e:
+            rec.violation('parse-raises:' + type(e).__name__, f'twin sources: {type(e).__name__}: {e}', {'kind': 'twin', 'sources': [s for s, _, _ in srcs]})
+            return
+        diff = compare(got, exp)
+        if diff:
+            rec.violation('settings-of-another-source-applied', f'sources sharing the format {src["format"]!r} but with their own settings '
+                          f'{[{k: v for k, v in s.items() if k in ("delimiter", "has_header", "negate_amount", "decimal_separator")} for s, _, _ in srcs]}: {diff}',
+                          {'kind': 'twin', 'sources': [s for s, _, _ in srcs]})
+            return
+    rec.interesting(['twin', core.digest([s for s, _, _ in srcs])])
+
+
 def run(rec, shard, nshards, t):
     core.import_tally()
     rnd = core.rng_for('C05', shard)
@@ -363,6 +405,8 @@ def run(rec, shard, nshards, t):
             judge_csv_case(rec, rnd, tmp, t)
             if i % 5 == 0:
                 judge_regex_case(rec, rnd, tmp)
+            if i % 4 == 0:
+                judge_twin_sources(rec, rnd, tmp)
         if shard == 0:
             lay = gen_layout(rnd)
             rows = gen_rows(rnd, lay, '.', 4)
@@ -399,6 +443,11 @@ def replay(rec, case):
     try:
         if case['kind'] == 'witness':
             witnesses(rec, tmp)
+            return
+        if case['kind'] == 'twin':
+            rnd = core.rng_for('C05', 'replay')
+            for _ in range(300):
+                judge_twin_sources(rec, rnd, tmp)
             return
         path = os.path.join(tmp, 'f.csv')
         with open(path, 'w', encoding='utf-8', newline='') as f:
